@@ -83,6 +83,9 @@ type Sched struct {
 
 var active *Sched
 
+// freeWG, when set (free-running race pass), tracks the goroutines started through GoNamed.
+var freeWG *sync.WaitGroup
+
 var (
 	watchdogOnce sync.Once
 	progress     int64 // bumped at every scheduling step and at every execution start
@@ -187,6 +190,14 @@ func Go(fn func()) { GoNamed("", fn) }
 func GoNamed(name string, fn func()) *Thread {
 	s := active
 	if s == nil {
+		if wg := freeWG; wg != nil {
+			wg.Add(1)
+			go func() {
+				defer wg.Done()
+				fn()
+			}()
+			return nil
+		}
 		go fn()
 		return nil
 	}
